@@ -411,6 +411,77 @@ Proof.
   rewrite E, run2_const. apply shipped_window_limit. exact Hok.
 Qed.
 
+(* ---- the start times the events report are the limiter's history ---- *)
+Lemma hist_step N W s c : hist (step N W s c) = hd 0 (hist (step N W s c)) :: hist s.
+Proof. unfold step. destruct (wait N W (dq s) (now s + gap c) (eps c)) as [[d' t'] sl]. reflexivity. Qed.
+
+Definition starts_of (es : list ev) : list Z := map e_start (filter e_req es).
+Lemma starts_of_app a b : starts_of (a ++ b) = starts_of a ++ starts_of b.
+Proof. unfold starts_of. rewrite filter_app, map_app. reflexivity. Qed.
+Lemma starts_of_cons e es : starts_of (e :: es) = (if e_req e then [e_start e] else []) ++ starts_of es.
+Proof. unfold starts_of. simpl. destruct (e_req e); reflexivity. Qed.
+
+Lemma fetch_one_starts s o id a :
+  let s' := fst (fetch_one s o id a) in let e := snd (fetch_one s o id a) in
+  hist (c_rate s') = (if e_req e then [e_start e] else []) ++ hist (c_rate s).
+Proof.
+  intros s' e. destruct (fetch_one_table s o id a) as (Hreq & _ & _ & _ & _ & _ & _ & Hsame & Hneed).
+  fold s' e in Hreq, Hsame, Hneed. rewrite Hreq.
+  destruct (need_request (c_fs s) (cache_name o id) (o_ow o)).
+  - destruct (Hneed eq_refl) as (H1 & _ & _ & H4 & _). simpl. rewrite H4, H1. apply hist_step.
+  - rewrite (Hsame eq_refl). reflexivity.
+Qed.
+
+Lemma fetch_list_starts o : forall ids env s,
+  let r := fetch_list s o ids env in hist (c_rate (fst r)) = rev (starts_of (snd r)) ++ hist (c_rate s).
+Proof.
+  induction ids as [|id ids IH]; intros env s; simpl; [reflexivity|].
+  pose proof (fetch_one_starts s o id (hd attempt0 env)) as H1. simpl in H1.
+  destruct (fetch_one s o id (hd attempt0 env)) as [s1 e] eqn:E1. simpl in H1.
+  destruct (is_exc (e_res e)).
+  - simpl. rewrite starts_of_cons, H1. unfold starts_of; simpl. rewrite app_nil_r. destruct (e_req e); reflexivity.
+  - specialize (IH (if e_req e then tl env else env) s1). simpl in IH.
+    destruct (fetch_list s1 o ids (if e_req e then tl env else env)) as [s2 es]. simpl in *.
+    rewrite IH, H1, starts_of_cons, rev_app_distr, <- app_assoc. f_equal. destruct (e_req e); reflexivity.
+Qed.
+
+Lemma do_ops_starts : forall ops s,
+  let r := do_ops s ops in hist (c_rate (fst r)) = rev (starts_of (concat (snd r))) ++ hist (c_rate s).
+Proof.
+  induction ops as [|o ops IH]; intros s; simpl; [reflexivity|].
+  unfold do_op.
+  pose proof (fetch_list_starts o (op_ids o) (o_env o)
+     {| c_rate := c_rate s; c_pend := c_pend s + o_gap o; c_calls := c_calls s; c_fs := c_fs s |}) as H1. simpl in H1.
+  destruct (fetch_list _ o (op_ids o) (o_env o)) as [s1 es]. simpl in H1.
+  specialize (IH s1). simpl in IH. destruct (do_ops s1 ops) as [s2 ess]. simpl in *.
+  rewrite IH, H1, starts_of_app, rev_app_distr, <- app_assoc. reflexivity.
+Qed.
+
+(* the start times reported by the events of a history (requests only, failed ones included), oldest first, are exactly the
+   limiter's record *)
+Theorem client_starts f ops :
+  let r := do_ops (cl_init f) ops in starts_of (concat (snd r)) = rev (hist (c_rate (fst r))).
+Proof.
+  intros r. pose proof (do_ops_starts ops (cl_init f)) as H. cbv zeta in H. fold r in H.
+  simpl in H. rewrite app_nil_r in H. rewrite H, rev_involutive. reflexivity.
+Qed.
+
+Lemma count_rev W x l : count_in_window W x (rev l) = count_in_window W x l.
+Proof.
+  unfold count_in_window. induction l as [|a l IH]; simpl; [reflexivity|].
+  rewrite filter_app, app_length, IH. simpl. destruct (in_window W x a); simpl; lia.
+Qed.
+
+(* hence the property's first sentence for the observable itself: in any history of public calls, no half-open one-second window
+   contains more than 10 (with one key setting: that setting's limit) of the request start times *)
+Theorem client_starts_window f ops x : forallb op_okb ops = true ->
+  (count_in_window window x (starts_of (concat (snd (do_ops (cl_init f) ops)))) <= limit true)%nat.
+Proof. intros H. rewrite client_starts, count_rev. apply client_window_limit. exact H. Qed.
+
+Theorem client_starts_window_const key f ops x : forallb op_okb ops = true -> Forall (fun o => o_key o = key) ops ->
+  (count_in_window window x (starts_of (concat (snd (do_ops (cl_init f) ops)))) <= limit key)%nat.
+Proof. intros H Hk. rewrite client_starts, count_rev. apply client_window_limit_const; assumption. Qed.
+
 (* non-vacuity: the same get_seq call twice with a cache directory - one request, then a hit *)
 Definition w_op : op :=
   mk_op (1%N, 0, false, None, Some (bs "R/p0"%bs), [bs "AB0001.1"%bs], bs "fasta"%bs, None, false, [(0, 0, Some (bs ">a"%bs), false)]).
